@@ -1,5 +1,5 @@
 # table read by gen_manifest.py
-HOOK_COMMITS = []
+HOOK_COMMITS = ["69f8916"]
 NOT_APPLICABLE = {}
 NOTES = ("Every check runs the real ohsl code on every element of an explicitly described finite space "
          "(inputs over small alphabets, operation histories up to a depth, thread schedules, closure answer scripts); "
@@ -81,3 +81,14 @@ add("C14", "exploration",
     "Rectangular, polar and cut-adjacent grids (1.6e3 points quick, 2.6e4 thorough) covering every quadrant, both axes, both sides (+-1e-9, +-1e-13, +-0) of every cut and 1e-6 neighbourhoods of the branch points: forward functions against exp by scaling-and-squaring Taylor series (1e-9), every inverse pinned by forward_oracle(inverse(z)) = z (1e-8) plus its principal range, reciprocals, Pythagorean identities, z^w = exp(w ln z) for 7 exponents, polar round trip, reduction to f64 on the real axis.",
     "Trusted: own complex arithmetic and Taylor exp. The continuum between lattice points is not covered; which side of a cut is continuous is not prescribed.",
     "DESIGN.md section 6 C14")
+
+add("C15", "model_checking",
+    "exhaustive enumeration of short vectors / pairs / ranges + explicit-state BFS over editing histories to closure, Vec model as oracle",
+    "All vectors of length 0..4 over {0,1,-1,2,1/2}: every same-length pair (4e5) for +, -, dot and the assignment forms, every (start,end) range for partial sums/products, scalar forms, abs, norm_1, find, sort, constructors, conj/real; lengths up to 64 through a family; all integer-valued f64 vectors of length 0..6 for the 1-, 2-, p-, inf-norms with inequalities, homogeneity, triangle inequality; linspace/powspace for every n in 2..64. BFS over push/push_front/insert/pop/swap/resize/assign/clear/sort/index writes on a real Vector<Rat> (length <= 5) runs to closure: all 1365 reachable states, every reduction re-checked in each.",
+    "Trusted: Vec model; norms judged on integer-valued data so reference values are exact. random() only by length and range.",
+    "DESIGN.md section 6 C15")
+add("C16", "model_checking",
+    "stateless exploration of ALL thread interleavings of the real dot_f64 under shuttle's DFS scheduler + exhaustive (length, worker-count) sweep with real threads and real CPU affinity",
+    "Guard on: for workers 1..4 (quick) / 1..6 (thorough) and lengths {0,1,W-1,W,W+1,2W+1,4W+3} on integer and cancellation-prone data, shuttle enumerates every schedule (1/5/44/550/... per configuration); the set of results over all schedules must be a singleton, exact on integer data, and the enumeration is repeated to prove the explorer owns every choice. Guard off: every worker count 1..16 obtained through CPU affinity (num_cpus::get() asserted) x every length 0..200: bit-identical to dot and to an exact i128 product on integer data, within the reassociation bound and bit-identical across repeated calls otherwise.",
+    "Trusted: shuttle 0.9.3 as scheduler (scoped threads, join, Mutex/atomics if a rewrite introduces them are interception points). Unsynchronised unsafe sharing would be invisible to a cooperative scheduler. Worker counts above the CPUs available cannot be swept.",
+    "DESIGN.md section 6 C16")
